@@ -42,6 +42,8 @@ def main():
                 r = vplib.Run(d["variant"], binary, d["args"], cpu=16, timeout=600)
                 if d.get("tsan_rule"):
                     r.tsan_rule = d["tsan_rule"]
+                if d.get("wrapper"):
+                    r.wrapper = d["wrapper"]
                 vplib.run_all([r], b, tmp, log=log)
                 keys = [v["key"] for v in (r.result or {}).get("violations", [])]
                 if r.outcome == "sanitizer":
